@@ -94,6 +94,11 @@ def _cases(tier):
     for (c1, s1), (c2, s2) in itertools.combinations(reps, 2):
         # two observations of one field: one representative per (reference form, accept signature)
         yield {"h": [["S", c1, s1], ["S", c2, s2]], "cfg": "ir+pydantic"}
+    # characters that need escaping inside a Literal / alias: the generated model must admit the exact string
+    for ch in ('"', "'", "\\", "\n", ",", "é", "\U0001F600", "\u2028", "\x85", " "):
+        yield {"h": [["J", {"a": ch}]], "cfg": "full"}
+        yield {"h": [["J", {"a": ch + "x"}], ["J", {"a": "y"}]], "cfg": "ir+pydantic+dc"}
+        yield {"h": [["J", {"a": {"b": ch}}]], "cfg": "full"}
     # literal-limit axis
     for ml in (0, 1, 2, 3):
         for h in A.histories(["lit_a", "lit_b", "long", "null", "s_int", A.ABSENT], 3):
